@@ -211,7 +211,17 @@ func TestC13_SingleViolation(t *testing.T) {
 		}
 		// boundary-valid variants
 		if l := keyListOf(p); len(l) > 0 && rapid.IntRange(0, 3).Draw(t, "boundaryID") == 0 {
-			l[0].(map[string]interface{})["id"] = strings.Repeat("y", rapid.SampledFrom([]int{1, 50}).Draw(t, "idLen"))
+			n := rapid.SampledFrom([]int{1, 50}).Draw(t, "idLen")
+			used := map[string]bool{}
+			for _, id := range idsOf(l) {
+				used[id] = true
+			}
+			for _, c := range "yzQW_-" { // a boundary-length id that does not collide with another key of the patch
+				if id := strings.Repeat(string(c), n); !used[id] {
+					l[0].(map[string]interface{})["id"] = id
+					break
+				}
+			}
 		}
 		if l := svcListOf(p); len(l) > 0 && rapid.IntRange(0, 3).Draw(t, "boundaryType") == 0 {
 			l[0].(map[string]interface{})["type"] = strings.Repeat("t", rapid.SampledFrom([]int{1, 30}).Draw(t, "typeLen"))
